@@ -41,13 +41,35 @@ CLAIMED = {
             "Emissions recorded through the public psygnal refresh signal for every call (accepted, refused, nested, forced)."),
 }
 
-NOT_YET = {
- "C10": "feature-switching suite not built yet",
-    "C12": "import pipeline specification not built yet", "C13": "relabel specification not built yet",
-    "C14": "round-trip specification not built yet", "C15": "subset-export specification not built yet",
-    "C16": "read-only specification not built yet", "C17": "name-map specification not built yet",
-    "C18": "candidate-graph specification not built yet", "C19": "label-utility specification not built yet",
-}
+IO_NOTE = ("Trusted base: the IO drivers harness/io_drivers.py / harness/export_ops.py (they only run the function and serialise its "
+           "result), TLC, independent readers (pandas, zarr, geff.read), the bounds of the input universes stated in the evidence file.")
+CLAIMED.update({
+    "C12": ("model_checking", "TLA+ model of the import builder pipeline (Import.tla: validate name map -> load -> validate graph -> construct) checked by TLC over all small "
+            "tables; the real tracks_from_df run on the same tables; TLC (TraceImport.tla) evaluates faithful-or-ValueError on the real results",
+            "All node tables up to 2 (thorough 3) rows incl. every malformed variant, integer and string ids, three parent-none encodings, renamed columns."),
+    "C13": ("model_checking", "TLA+ model of the relabelling double loop (Relabel.tla) checked by TLC; real relabel_segmentation / tracks_from_df(df, segmentation) on all "
+            "arrays x injective assignments; TLC compares every output pixel and the shifted graph with the reference",
+            "Exhaustive over 2-frame arrays with labels 0..3 and all injective (time, seg id) -> node id assignments over ids 0..3."),
+    "C14": ("model_checking", "catalogue states of the editing model exported by the real exporters and re-imported; TLC (TraceExport.tla) compares the projections "
+            "per format (csv / geff / internal)",
+            "States come from the TLA+ catalogue (divisions, skip edges, non-contiguous ids after edits), 2D/3D, with/without array, single-key and per-axis positions."),
+    "C15": ("model_checking", "catalogue states x EVERY node subset exported by the real CSV / GEFF exporters; TLC recomputes the ancestor closure, induced edges and "
+            "masked array from the pre-state",
+            "All subsets of the nodes of each catalogue state; GEFF arrays embedded so that masks straddle the exporter's 64-voxel chunks."),
+    "C16": ("model_checking", "catalogue states x every read-only operation on the real object; TLC checks FullEq(before, after) incl. scale, registry, lookups, history",
+            "Full / subset CSV and GEFF export, save, and all queries, from catalogue states with scale None / given, per-axis positions, with/without array."),
+    "C17": ("model_checking", "TLA+ model of the 5-stage inference pipeline (NameMap.tla, difflib scores as a constant table) checked by TLC; real infer_node_name_map on all "
+            "ordered column lists; TLC checks partition + exact-key clauses on the real maps and equality with the model's map",
+            "All ordered lists of <= 3 (thorough 4) distinct names from a 22-name vocabulary x 2 feature tables x 2 required-key sets."),
+    "C18": ("model_checking", "TLA+ model of the add_cand_edges frame loop (CandGraph.tla) checked by TLC; real compute_graph_from_points_list / compute_graph_from_seg; "
+            "TLC recomputes nodes, near pairs in consecutive frames and IoU from the inputs",
+            "Every non-empty subset of frames x 3 grid positions (all frame gaps), boundary distances; all 3-frame 1x3 label arrays."),
+    "C19": ("model_checking", "TLA+ models of the ensure_unique_labels frame loop (Labels.tla) and of relabelling by track (TrackLabels.tla, TLC enumerates all solution forests); "
+            "real functions on the same inputs; TLC evaluates the properties on the real outputs",
+            "All label arrays of the universe (empty frames, repeated labels); all binary forests over 3 frames x 2 detections x 4 arrays."),
+})
+
+NOT_YET = {}
 
 
 def main():
@@ -59,9 +81,9 @@ def main():
             "thorough_cmd": f"./check {pid} --tier thorough",
             "evidence_file": f"/verif/evidence/{pid}.json",
             "replay_cmd_template": f"./check {pid} --replay {{path}}",
-            "engine": "tlc-core",
+            "engine": "tlc-io" if pid in ("C12", "C13", "C17", "C18", "C19") else "tlc-core",
             "level_claimed": {"category": cat, "text": text, "design_ref": "DESIGN.md §6 " + pid},
-            "level_note": CORE_NOTE,
+            "level_note": IO_NOTE if pid in ("C12", "C13", "C14", "C15", "C16", "C17", "C18", "C19") else CORE_NOTE,
             "technique": tech,
         })
     m = {
@@ -71,9 +93,13 @@ def main():
                   "exposed by public attributes (guard name reserved)",
                   "baseline_off_cmd": BASELINE, "source_commits": [], "add_only": True},
         "engines": [{"name": "tlc-core", "path": "/verif/spec (Core.tla, Props.tla, MC.tla, TraceStep.tla) + /verif/harness + /verif/vf",
-                     "serves_properties": sorted(CLAIMED), "kind_free_text":
+                     "serves_properties": sorted(set(CLAIMED) - {"C12", "C13", "C17", "C18", "C19"}), "kind_free_text":
                      "explicit TLA+ specification checked by TLC; conformance by catalogue replay (spec->code) and "
-                     "TLC trace checking of recorded real transitions (code->spec)"}],
+                     "TLC trace checking of recorded real transitions (code->spec)"},
+                    {"name": "tlc-io", "path": "/verif/spec (Import, Relabel, NameMap, CandGraph, Labels, TrackLabels + Trace*.tla) + /verif/harness/io_drivers.py",
+                     "serves_properties": ["C12", "C13", "C17", "C18", "C19"], "kind_free_text":
+                     "pipeline functions specified as TLA+ state machines over all small inputs; TLC checks the design and evaluates the "
+                     "property on outputs recorded from the real function"}],
         "checks": checks,
         "not_applicable": [{"property_id": k, "reason": v} for k, v in NOT_YET.items()
                            if k not in CLAIMED and not k.startswith("_")],
